@@ -259,6 +259,7 @@ harness('h_roundtrip::c15_nobleed_igmp_query_with_sources', ['C15'], 'complete',
 harness('h_roundtrip::c08_rt_arp_eth_ipv4', ['C08'], 'complete (all values)', 'ArpEthIpv4Packet layout (RFC 826), == to_arp_packet().to_bytes(), ArpPacket::from_slice + try_eth_ipv4 give value back', tier='quick', bound='none', timeout=564, heavy=False)
 harness('h_roundtrip::c08_rt_ip_auth_to_bytes', ['C08'], 'bounded (ICV 12 B, shrunk from 16 via set_raw_icv)', 'IpAuthHeader::to_bytes == RFC 4302 image, len == header_len, no stale bytes', tier='thorough', bound='ICV = 12 bytes', timeout=2244, heavy=True)
 harness('h_roundtrip::c08_rt_ip_auth_write_from_slice', ['C08'], 'bounded (ICV 12 B)', 'IpAuthHeader::write == same RFC 4302 image; from_slice(image) == (value, [])', tier='quick', bound='ICV = 12 bytes', timeout=300, heavy=False)
+harness('h_roundtrip::c08_rt_ip_auth_eq', ['C08'], 'bounded (ICV 12 B with stale bytes behind it)', 'IpAuthHeader: decode(encode(h)) == h under the crate\'s own PartialEq although h carries stale ICV bytes; headers differing in one ICV byte are unequal', tier='quick', bound='ICV = 12 bytes', timeout=300, heavy=False)
 harness('h_roundtrip::c08_rt_ip_auth_read', ['C08'], 'bounded (ICV 12 B)', 'IpAuthHeader::read(image) == value', tier='quick', bound='ICV = 12 bytes', timeout=300, heavy=False)
 harness('h_roundtrip::c08_br_ip_auth', ['C08'], 'bounded (payload len field 4, input 24..=28 B)', 'IpAuthHeader bytes->value->write, mask = reserved bytes 2,3; decode again same value', tier='quick', bound='ICV = 12 bytes', timeout=360, heavy=False)
 
